@@ -226,6 +226,8 @@ def run(ctx):
     shapes = [("cpp-bool-sequence", "Pb: !protocol\n  sequence:\n    a: !stream\n      items: bool\n    b: bool*\n    c: bool*3\n"),
               ("cpp-map-key-no-hash", "Pm: !protocol\n  sequence:\n    c: date->int32\n    e: time->string\n    f: datetime->string\n"),
               ("cpp-map-key-no-hash", "Pc: !protocol\n  sequence:\n    d: complexfloat32->int32\n    e: complexfloat64->string\n"),
+              ("python-alias-of-inline-nullable-union", "Rk: !record\n  fields:\n    n: [null, int32, float32]\n\nMaybeNum: [null, int32, float32]\n\n"
+               "Ral: !record\n  fields:\n    num: MaybeNum\n\nPu: !protocol\n  sequence:\n    r: Ral\n    k: Rk\n"),
               ("map-key-ok", "Pk: !protocol\n  sequence:\n    g: bool->bool\n    h: string->string*\n    i: uint64->float32\n    j: size->int8\n")]
     for i, (key, model) in enumerate(shapes):
         d = os.path.join(ctx.scratch, "shape%d" % i)
@@ -237,7 +239,9 @@ def run(ctx):
         rcp, err = py_import(d + "/out/python", "sh")
         bad = syntax_check(d + "/out/cpp")
         ctx.case(("shape", model), sample={"shape": key, "python_imports": rcp == 0, "cpp_files_failing": len(bad)})
-        if rcp != 0:
+        if rcp != 0 and key == "python-alias-of-inline-nullable-union":
+            ctx.report(key, "generated Python does not import for an accepted model (%s): %s" % (model.replace("\n", " ")[:120], err.strip()[-120:]), rep)
+        elif rcp != 0:
             ctx.report("python-import:shape", "generated Python does not import for %r: %s" % (model, err[-200:]), rep)
         if bad:
             ctx.report(key if key != "map-key-ok" else "cpp-compile:shape", "generated C++ is not valid C++17 for an accepted model (%s): %s"
